@@ -29,6 +29,7 @@ type World struct {
 	modFns  []*ssa.Function          // module functions with bodies, sorted
 	overlay map[string][]byte
 	loadErr []string
+	ginit   map[string]*Term
 }
 
 func loadWorld(repo string, overlay map[string][]byte, withDeps bool) (*World, error) {
@@ -119,6 +120,72 @@ func (w *World) fn(name string) *ssa.Function {
 
 func (w *World) pkg(path string) *packages.Package { return w.all[path] }
 
+// globalInits evaluates the module's package initialisers once and records the values stored into package-level
+// variables that no other function ever assigns (literal tables: slices of checks, maps of handlers, …).
+func (w *World) globalInits() map[string]*Term {
+	if w.ginit != nil {
+		return w.ginit
+	}
+	w.ginit = map[string]*Term{}
+	assignedElsewhere := map[string]bool{}
+	for _, fn := range w.modFns {
+		if fn.Name() == "init" && fn.Synthetic != "" {
+			continue
+		}
+		for _, b := range fn.Blocks {
+			for _, in := range b.Instrs {
+				if st, ok := in.(*ssa.Store); ok {
+					if g, ok := st.Addr.(*ssa.Global); ok {
+						assignedElsewhere[g.Pkg.Pkg.Path()+"."+g.Name()] = true
+					}
+				}
+				// address taken and passed on: treat as assignable
+				for _, op := range in.Operands(nil) {
+					if g, ok := (*op).(*ssa.Global); ok {
+						switch in.(type) {
+						case *ssa.Store, *ssa.UnOp, *ssa.FieldAddr, *ssa.IndexAddr:
+						default:
+							assignedElsewhere[g.Pkg.Pkg.Path()+"."+g.Name()] = true
+						}
+					}
+				}
+			}
+		}
+	}
+	e := &Engine{prog: w.prog, fset: w.fset, modPrefix: modPath, maxDepth: 0, loopBound: 1, maxPaths: 2000, funcByName: w.funcs, opaque: map[string]bool{}, hof: map[string]int{}}
+	for _, fn := range w.modFns {
+		if !(fn.Name() == "init" && fn.Synthetic != "" && fn.Parent() == nil) {
+			continue
+		}
+		for _, s := range e.Explore(fn) {
+			// the path that actually initialises: the package's own guard was false
+			ran := false
+			for _, f := range s.Facts {
+				if !f.Pos && f.T.Kind == "deref" || !f.Pos && strings.Contains(f.T.String(), "init$guard") {
+					ran = true
+				}
+			}
+			if !ran || s.Trunc != "" {
+				continue
+			}
+			for k, v := range s.Mem {
+				if !strings.HasPrefix(k, "gaddr:") || strings.Contains(k, "init$guard") {
+					continue
+				}
+				name := strings.TrimPrefix(k, "gaddr:")
+				if assignedElsewhere[name] || v == nil {
+					continue
+				}
+				switch v.Kind {
+				case "varargs", "structval", "const", "func":
+					w.ginit[k] = v
+				}
+			}
+		}
+	}
+	return w.ginit
+}
+
 // thoroughTier deepens every exploration: one more loop unrolling, inlining depth at least 8.
 var thoroughTier bool
 
@@ -129,7 +196,7 @@ func (w *World) engine(depth, loops int) *Engine {
 			depth = 8
 		}
 	}
-	return &Engine{prog: w.prog, fset: w.fset, modPrefix: modPath, maxDepth: depth, loopBound: loops, maxPaths: 20000, funcByName: w.funcs, opaque: map[string]bool{}, hof: map[string]int{}}
+	return &Engine{globalInit: w.globalInits(),prog: w.prog, fset: w.fset, modPrefix: modPath, maxDepth: depth, loopBound: loops, maxPaths: 20000, funcByName: w.funcs, opaque: map[string]bool{}, hof: map[string]int{}}
 }
 
 func (w *World) pos(p token.Pos) string {
